@@ -54,10 +54,11 @@ def gen_case(rng, n_ops, faults=False, crashes=False):
     for _ in range(n_ops):
         s, su, lvl, _ = rng.choice(sess)
         if me_on and rng.chance(1, 9):
-            if faults and rng.chance(1, 8):
-                out.append(f"fail {1 + rng.below(3)}")
-            out.append(rng.choice([f"sub {s} me", f"sub {s} me", f"sub {s} me", f"leave {s} me", f"leave {s} me", f"unload {su}", f"unload {su}",
-                                   f"pub {s} me CM", f"get {s} me desc", f"leave {s} me unsub=1", f"drop {s}", "fg S5"]))
+            o = rng.choice([f"sub {s} me", f"sub {s} me", f"sub {s} me", f"leave {s} me", f"leave {s} me", f"unload {su}", f"unload {su}",
+                            f"pub {s} me CM", f"get {s} me desc", f"leave {s} me unsub=1", f"drop {s}", "fg S5"])
+            if faults and o.split(" ")[0] in ("sub", "leave", "get") and rng.chance(1, 6):
+                out.append(f"fail {1 + rng.below(3)}")      # a store failure, consumed by the request which follows
+            out.append(o)
             continue
         k = rng.below(100)
         t = f"T{1 + rng.below(ntop)}" if ntop else None
@@ -613,14 +614,17 @@ WORLD_TRUSTED = [
     "world stream: the Go harness drives the real Session.dispatch, Hub and Topic handlers one request at a time over an in-memory "
     "store adapter (harness/overlay/main/verif_memadapter_test.go) written from the MySQL adapter's statements; the adapter is part "
     "of the trusted base, the goroutine scheduling of the real server is replaced by a deterministic pump",
-    "Model/World.lean, TopicGrp.lean, TopicOps.lean, TopicReq.lean (group topics), TopicChan.lean (channels) and TopicP2P.lean (peer-to-peer topics) are a hand "
+    "Model/World.lean, TopicGrp.lean, TopicOps.lean, TopicReq.lean (group topics), TopicChan.lean (channels), TopicP2P.lean (peer-to-peer topics) and "
+    "TopicMe.lean (the users' `me` topics, the notifications between topics and the on/off handshake of pres.go) are a hand "
     "transcription of the handlers; they are tied to the code only by the differential run (same requests, byte-identical replies, "
     "traffic, adapter calls and state digests)",
     "history monitors (vlib/worldmon.py) decide the property on the implementation's own output when the tie is broken",
 ]
 WORLD_ASSUMPTIONS = [
-    "group, channel-enabled and peer-to-peer topics (no me/fnd/sys; presence routed through users' `me` topics is not observed), one "
-    "server node, requests processed one at a time in arrival order; on-behalf-of (root `as=`) requests are exercised on plain group "
+    "group, channel-enabled and peer-to-peer topics and the users' `me` topics ({sub}, {leave}, {pub}, {get desc}, idle unload, and everything "
+    "the other topics and users tell a user there; not the other requests a `me` topic serves: credentials, tags, {get sub} of the contact "
+    "list, user-agent changes; no fnd/sys), one server node, requests processed one at a time in arrival order, the hub's queue of "
+    "notifications between topics drained after every request; on-behalf-of (root `as=`) requests are exercised on plain group "
     "topics only; on a channel-enabled topic two users come as readers (`chn` spelling) and two as subscribers, one request in twenty "
     "under the other spelling",
     "accounts carry the default access the server stores for an account (within JRWPAS / JRWPA, with A unless N: user.go:97-117)",
